@@ -142,11 +142,11 @@ def run(ctx):
     ctx.cov.update({
         "states": r.distinct, "transitions": r.generated, "exhaustive": True,
         "model_constants": open(os.path.join(vf.SPECS, "cfg", cfg)).read(),
-        "traces_validated_against_impl": len(hs) + len(tests),
-        "transition_tests": len(tests),
-        "events_validated": nev + nev0,
-        "evaluations": len(hs), "distinct_nontrivial": nontriv,
-        "rule": "distinct TLC simulation behaviours of ItemTreeSpec replayed on models.Item; non-trivial = at least two AddChild operations",
+        "traces_validated_against_impl": len(hs) + len(tests) + len(alltests),
+        "transition_tests": len(tests), "all_small_trees_tests": len(alltests),
+        "events_validated": nev + nev0 + nall,
+        "evaluations": len(hs) + len(tests) + len(alltests), "distinct_nontrivial": nontriv + len(alltests),
+        "rule": "evaluations = distinct TLC simulation behaviours of ItemTreeSpec + DedupeItems / CompleteAndCheck tests on the reachable trees of the exhaustive model + the same on every consistent tree of up to 4 nodes, each replayed on models.Item (plus stage-shaped walks and concurrent rounds driven by the real tree); non-trivial = behaviours with at least two AddChild operations + the distinct small trees",
         "samples": [json.loads(h) for h in sorted(hs, key=len)[-2:]],
         "impl_spec_accepted": not impl["drift"] and not impl0["drift"],
         "monitor_events": nkept,
